@@ -72,11 +72,13 @@ pub struct Opts {
     pub quasi: bool,
     /// allow unquote to mention lambda-bound variables of an *enclosing* procedure inside an inner one
     pub quasi_in_closure: bool,
+    /// procedure bodies and expressions never assign global variables (local assignments stay)
+    pub no_global_effects: bool,
 }
 
 impl Default for Opts {
     fn default() -> Self {
-        Opts { max_depth: 5, callcc: true, output: true, eval: true, quasi: true, quasi_in_closure: true }
+        Opts { max_depth: 5, callcc: true, output: true, eval: true, quasi: true, quasi_in_closure: true, no_global_effects: false }
     }
 }
 
@@ -135,6 +137,17 @@ impl<'a> Gen<'a> {
             }
         }
         out
+    }
+
+    /// variables of type Int that the current options allow to be assigned
+    fn assignable(&self, scope: &Scope) -> Vec<Var> {
+        let all: Vec<Var> = self.vars_of(scope, Ty::Int).into_iter().filter(|v| v.mutable).collect();
+        if self.opts.no_global_effects {
+            let locals: BTreeSet<String> = scope.vars.iter().map(|v| v.name.clone()).collect();
+            all.into_iter().filter(|v| locals.contains(&v.name)).collect()
+        } else {
+            all
+        }
     }
 
     fn procs_of(&self, scope: &Scope) -> Vec<Proc> {
@@ -494,7 +507,7 @@ impl<'a> Gen<'a> {
             }
             29 => {
                 // set! then read (locals only when mutable)
-                let vars: Vec<Var> = self.vars_of(scope, Ty::Int).into_iter().filter(|v| v.mutable).collect();
+                let vars: Vec<Var> = self.assignable(scope);
                 if vars.is_empty() {
                     return self.leaf(Ty::Int, scope);
                 }
@@ -639,7 +652,7 @@ impl<'a> Gen<'a> {
         let d = depth;
         match self.rng.usize(8) {
             0 | 1 => {
-                let vars: Vec<Var> = self.vars_of(scope, Ty::Int).into_iter().filter(|v| v.mutable).collect();
+                let vars: Vec<Var> = self.assignable(scope);
                 if vars.is_empty() {
                     return None;
                 }
